@@ -265,11 +265,6 @@ func (s *scope) Close() error {
 
 	var errs []error
 
-	// Cancel context
-	if s.cancel != nil {
-		s.cancel()
-	}
-
 	// Close all children first
 	s.childrenMu.Lock()
 	children := make([]*scope, 0, len(s.children))
@@ -283,6 +278,13 @@ func (s *scope) Close() error {
 		if err := child.Close(); err != nil {
 			errs = append(errs, fmt.Errorf("failed to close child scope: %w", err))
 		}
+	}
+
+	// Cancel context. Only now: children created without a context of their own share this one, and cancelling it
+	// wakes their watcher goroutines, whose Close would race with the loop above and make it skip children that
+	// are still being disposed
+	if s.cancel != nil {
+		s.cancel()
 	}
 
 	// Dispose all disposable scoped instances in reverse order
